@@ -172,9 +172,16 @@ def templates_in(fn: ast.AST) -> List[ast.AST]:
             if any(isinstance(p, ast.Constant) and isinstance(p.value, str) for p in ps) or any(isinstance(p, ast.FormattedValue) for p in ps):
                 if id(n) not in inner:
                     out.append(n)
-                for x in ast.walk(n):
-                    if x is not n and isinstance(x, (ast.BinOp, ast.JoinedStr)):
+                # only the direct pieces of this chain belong to it; templates nested inside calls/generators are their own
+                def mark(x):
+                    if isinstance(x, ast.BinOp) and isinstance(x.op, ast.Add):
                         inner.add(id(x))
+                        mark(x.left)
+                        mark(x.right)
+                    elif isinstance(x, ast.JoinedStr):
+                        inner.add(id(x))
+                mark(n.left)
+                mark(n.right)
     for n in walk_no_nested(fn):
         if isinstance(n, ast.JoinedStr) and id(n) not in inner:
             out.append(n)
